@@ -110,7 +110,7 @@ Proof.
     + rewrite exit_return_eq. apply TS_exit.
     + destruct st; cbv zeta.
       * destruct (locked_by_other g t); [rewrite exit_raise_eq; apply TS_exit|].
-        destruct (tbl_insert [a; b] (tview g view)) as [id v']. apply TS_go.
+        destruct (tbl_insert [a; b; None] (tview g view)) as [id v']. apply TS_go.
       * destruct (negb (get_ok (tview g view) cached id)); [rewrite exit_raise_eq; apply TS_exit|].
         destruct (locked_by_other g t); [rewrite exit_raise_eq; apply TS_exit|apply TS_go].
       * destruct (negb (get_ok (tview g view) cached id)); [rewrite exit_raise_eq; apply TS_exit|].
@@ -118,6 +118,14 @@ Proof.
       * destruct (locked_by_other g t); [rewrite exit_raise_eq; apply TS_exit|apply TS_go].
       * destruct (locked_by_other g t); [rewrite exit_raise_eq; apply TS_exit|apply TS_go].
       * destruct (locked_by_other g t); [rewrite exit_raise_eq; apply TS_exit|apply TS_go].
+      * destruct (locked_by_other g t); [rewrite exit_raise_eq; apply TS_exit|].
+        destruct (clash ucol (tview g view) None u); [destruct guard; [apply TS_go|rewrite exit_raise_eq; apply TS_exit]|].
+        destruct (tbl_insert [a; b; u] (tview g view)) as [id v']. apply TS_go.
+      * destruct (negb (get_ok (tview g view) cached id)); [rewrite exit_raise_eq; apply TS_exit|].
+        destruct (locked_by_other g t); [rewrite exit_raise_eq; apply TS_exit|].
+        destruct (upd_clash ucol (tview g view) id u); [destruct guard; [apply TS_go|rewrite exit_raise_eq; apply TS_exit]|apply TS_go].
+      * destruct (locked_by_other g t); [rewrite exit_raise_eq; apply TS_exit|].
+        destruct (upd_clash ucol (tview g view) id u); [destruct guard; [apply TS_go|rewrite exit_raise_eq; apply TS_exit]|apply TS_go].
       * rewrite exit_raise_eq. apply TS_exit.
 Qed.
 
@@ -165,12 +173,19 @@ Proof.
       assert (E : forall e, g_committed (exit_raise g t old is_thr e k) = g_committed g) by (intros e; rewrite exit_raise_eq; apply exit_committed).
       destruct st; cbv zeta.
       * destruct (locked_by_other g t); [apply E|].
-        destruct (tbl_insert [a; b] (tview g view)) as [id v']. reflexivity.
+        destruct (tbl_insert [a; b; None] (tview g view)) as [id v']. reflexivity.
       * destruct (negb (get_ok (tview g view) cached id)); [apply E|]. destruct (locked_by_other g t); [apply E|]. reflexivity.
       * destruct (negb (get_ok (tview g view) cached id)); [apply E|]. destruct (locked_by_other g t); [apply E|]. reflexivity.
       * destruct (locked_by_other g t); [apply E|]. reflexivity.
       * destruct (locked_by_other g t); [apply E|]. reflexivity.
       * destruct (locked_by_other g t); [apply E|]. reflexivity.
+      * destruct (locked_by_other g t); [apply E|].
+        destruct (clash ucol (tview g view) None u); [destruct guard; [reflexivity|apply E]|].
+        destruct (tbl_insert [a; b; u] (tview g view)) as [id v']. reflexivity.
+      * destruct (negb (get_ok (tview g view) cached id)); [apply E|]. destruct (locked_by_other g t); [apply E|].
+        destruct (upd_clash ucol (tview g view) id u); [destruct guard; [reflexivity|apply E]|reflexivity].
+      * destruct (locked_by_other g t); [apply E|].
+        destruct (upd_clash ucol (tview g view) id u); [destruct guard; [reflexivity|apply E]|reflexivity].
       * apply E.
 Qed.
 
@@ -293,12 +308,19 @@ Proof.
         - intros t' Hk. cbn in Hk. inversion Hk; subst t'. split; [exact Ht|]. rewrite thread_set_same by exact Htg. cbn. eauto 12. }
       destruct st; cbv zeta.
       * destruct (locked_by_other g t) eqn:Hlo; [apply Eraise|].
-        destruct (tbl_insert [a; b] (tview g view)) as [id v']. apply Go; reflexivity.
+        destruct (tbl_insert [a; b; None] (tview g view)) as [id v']. apply Go; reflexivity.
       * destruct (negb (get_ok (tview g view) cached id)); [apply Eraise|]. destruct (locked_by_other g t) eqn:Hlo; [apply Eraise|]. apply Go; reflexivity.
       * destruct (negb (get_ok (tview g view) cached id)); [apply Eraise|]. destruct (locked_by_other g t) eqn:Hlo; [apply Eraise|]. apply Go; reflexivity.
       * destruct (locked_by_other g t) eqn:Hlo; [apply Eraise|]. apply Go; reflexivity.
       * destruct (locked_by_other g t) eqn:Hlo; [apply Eraise|]. apply Go; reflexivity.
       * destruct (locked_by_other g t) eqn:Hlo; [apply Eraise|]. apply Go; reflexivity.
+      * destruct (locked_by_other g t) eqn:Hlo; [apply Eraise|].
+        destruct (clash ucol (tview g view) None u); [destruct guard; [apply Go; reflexivity|apply Eraise]|].
+        destruct (tbl_insert [a; b; u] (tview g view)) as [id v']. apply Go; reflexivity.
+      * destruct (negb (get_ok (tview g view) cached id)); [apply Eraise|]. destruct (locked_by_other g t) eqn:Hlo; [apply Eraise|].
+        destruct (upd_clash ucol (tview g view) id u); [destruct guard; [apply Go; reflexivity|apply Eraise]|apply Go; reflexivity].
+      * destruct (locked_by_other g t) eqn:Hlo; [apply Eraise|].
+        destruct (upd_clash ucol (tview g view) id u); [destruct guard; [apply Go; reflexivity|apply Eraise]|apply Go; reflexivity].
       * apply Eraise.
   - split; [exact IL|]. split; [exact IP|]. split; [exact IT|exact IK].
 Qed.
@@ -406,7 +428,7 @@ Proof.
       cbn [tview] in A, B. split; [exact A|]. split; [exact B|].
       unfold restored. rewrite C1, C2, C3. rewrite Hth1. cbn. auto. }
     destruct st.
-    + destruct (tbl_insert [a; b] (tview g view)) as [id v'] eqn:Ei.
+    + destruct (tbl_insert [a; b; None] (tview g view)) as [id v'] eqn:Ei.
       apply (Go v' (add_id id cached) (created ++ [id])); [unfold tick; rewrite Hph; cbv zeta; rewrite Hl, Ei; reflexivity|].
       cbn [body_run]. rewrite Ei. reflexivity.
     + destruct (get_ok (tview g view) cached id) eqn:Eg.
@@ -423,6 +445,27 @@ Proof.
         [unfold tick; rewrite Hph; cbv zeta; rewrite Hl; reflexivity|reflexivity].
     + apply (Go (tbl_delete id (tview g view)) cached created);
         [unfold tick; rewrite Hph; cbv zeta; rewrite Hl; reflexivity|reflexivity].
+    + destruct (clash ucol (tview g view) None u) eqn:Ec; [destruct guard|].
+      * apply (Go (tview g view) cached created);
+          [unfold tick; rewrite Hph; cbv zeta; rewrite Hl, Ec; reflexivity|cbn [body_run]; rewrite Ec; reflexivity].
+      * apply (Raise XDuplicate); [unfold tick; rewrite Hph; cbv zeta; rewrite Hl, Ec; reflexivity|cbn [body_run]; rewrite Ec; reflexivity].
+      * destruct (tbl_insert [a; b; u] (tview g view)) as [id v'] eqn:Ei.
+        apply (Go v' (add_id id cached) (created ++ [id])); [unfold tick; rewrite Hph; cbv zeta; rewrite Hl, Ec, Ei; reflexivity|].
+        cbn [body_run]. rewrite Ec, Ei. reflexivity.
+    + destruct (get_ok (tview g view) cached id) eqn:Eg.
+      * destruct (upd_clash ucol (tview g view) id u) eqn:Ec; [destruct guard|].
+        -- apply (Go (tview g view) (add_id id cached) created);
+             [unfold tick; rewrite Hph; cbv zeta; rewrite Eg, Hl, Ec; reflexivity|cbn [body_run]; rewrite Eg, Ec; reflexivity].
+        -- apply (Raise XDuplicate); [unfold tick; rewrite Hph; cbv zeta; rewrite Eg, Hl, Ec; reflexivity|cbn [body_run]; rewrite Eg, Ec; reflexivity].
+        -- apply (Go (tbl_update id ucol u (tview g view)) (add_id id cached) created);
+             [unfold tick; rewrite Hph; cbv zeta; rewrite Eg, Hl, Ec; reflexivity|cbn [body_run]; rewrite Eg, Ec; reflexivity].
+      * apply (Raise XNotFound); [unfold tick; rewrite Hph; cbv zeta; rewrite Eg; reflexivity|cbn [body_run]; rewrite Eg; reflexivity].
+    + destruct (upd_clash ucol (tview g view) id u) eqn:Ec; [destruct guard|].
+      * apply (Go (tview g view) cached created);
+          [unfold tick; rewrite Hph; cbv zeta; rewrite Hl, Ec; reflexivity|cbn [body_run]; rewrite Ec; reflexivity].
+      * apply (Raise XDuplicate); [unfold tick; rewrite Hph; cbv zeta; rewrite Hl, Ec; reflexivity|cbn [body_run]; rewrite Ec; reflexivity].
+      * apply (Go (tbl_update id ucol u (tview g view)) cached created);
+          [unfold tick; rewrite Hph; cbv zeta; rewrite Hl, Ec; reflexivity|cbn [body_run]; rewrite Ec; reflexivity].
     + apply (Raise (XUser n)); [unfold tick; rewrite Hph; reflexivity|reflexivity].
 Qed.
 
